@@ -45,7 +45,13 @@ theorem C33_export_import_value (j : Json) (hwf : j.WF) : exportJson (importVal 
     and that is the only way `initialize_from_json` fails. -/
 theorem C33_import_error_iff (j : Json) :
     (∃ e, importJson j = .error e) ↔ j.isObj = false := by
-  cases j <;> simp [importJson, Json.isObj]
+  cases j with
+  | obj kvs => simp [importJson, Json.isObj]
+  | null => exact ⟨fun _ => rfl, fun _ => ⟨_, rfl⟩⟩
+  | bool b => exact ⟨fun _ => rfl, fun _ => ⟨_, rfl⟩⟩
+  | num n => exact ⟨fun _ => rfl, fun _ => ⟨_, rfl⟩⟩
+  | str s => exact ⟨fun _ => rfl, fun _ => ⟨_, rfl⟩⟩
+  | arr xs => exact ⟨fun _ => rfl, fun _ => ⟨_, rfl⟩⟩
 
 theorem C33_non_object_rejected (j : Json) (htop : j.isObj = false) :
     cliRoundTrip j = .error .expectedObject := by
@@ -104,12 +110,10 @@ example : sampleJson.WF ∧ sampleJson.isObj = true := by
   refine ⟨?_, rfl⟩
   simp only [sampleJson, Json.WF, Json.WFObj, Json.WFList, JNum.WF, KeysSorted, I64_MIN, I64_MAX,
     U64_MAX, f64Finite]
-  refine ⟨⟨?_, ?_⟩, ?_⟩ <;> decide
+  decide
 
 /-- … and the conclusion, evaluated directly (not through the theorem) -/
-example : (match cliRoundTrip sampleJson with
-           | .ok j => j.render == sampleJson.render
-           | .error _ => false) = true := by
-  native_decide
+example : cliRoundTrip sampleJson = .ok sampleJson := by
+  rfl
 
 end AmVerif.Props.C33
